@@ -392,6 +392,14 @@ def register(chk):
         chk.add("powersofx-random:lemmas", c10_sampling.ob_powersofx_lemmas)
 
 
+def include_in(chk):
+    """this check's obligations registered inside a check of a layer above (framework.Check.include)"""
+    prog()
+    import c10
+    c10.prog()
+    register(chk)
+
+
 def main(argv=None):
     chk = Check("C07", "proof", argv)
     prog()
@@ -403,6 +411,9 @@ def main(argv=None):
                   "P32 word configuration of divide_std_dword (bit-serial division) is not covered"]
     chk.trusted = ["T7: a^q = a^x on GT; conjugate = inverse on unitary elements; C04: square_cyclotomic = square on the cyclotomic subgroup, multiply, frobenius_map",
                    "C02: BigInt<256>::compare / subtract", "z3"]
+    # lower layers whose specifications this check relies on: their obligations are part of this check's claim (framework.Check.include)
+    for dep in ['C02', 'C04']:
+        chk.include(dep)
     chk.run()
     chk.finish()
 
